@@ -1129,6 +1129,69 @@ fn check_injection(rep: &mut Report, rng: &mut Rng, idx: u64) {
     }
 }
 
+/// Encoder sections at the edge of "present": an empty pattern (nothing is written per record, as with
+/// `PatternEncoder::new("")`), a pattern that is only a newline, only `kind`, an empty section.
+fn edge_encoder_cases(rep: &mut Report, _rng: &mut Rng, idx: u64) {
+    let fmt = ["yaml", "json", "toml"][(idx % 3) as usize];
+    let shape = (idx / 3) % 5;
+    let sc = Scratch::new("c14e");
+    let dir = sc.path.to_str().unwrap().to_owned();
+    let (enc_doc, reference): (Value, Box<dyn log4rs::encode::Encode>) = match shape {
+        0 => (json!({"pattern": ""}), Box::new(PatternEncoder::new(""))),
+        1 => (json!({"kind": "pattern", "pattern": ""}), Box::new(PatternEncoder::new(""))),
+        2 => (json!({"pattern": "{n}"}), Box::new(PatternEncoder::new("{n}"))),
+        3 => (json!({"kind": "pattern"}), Box::new(PatternEncoder::default())),
+        _ => (json!({"pattern": "{m}"}), Box::new(PatternEncoder::new("{m}"))),
+    };
+    let doc = json!({"appenders": {"f": {"kind": "file", "path": format!("{}/from_document.log", dir), "encoder": enc_doc}},
+        "root": {"level": "trace", "appenders": ["f"]}});
+    let text = match serialize(&doc, fmt) {
+        Ok(t) => t,
+        Err(e) => {
+            rep.inconclusive(&e);
+            return;
+        }
+    };
+    let path = sc.path.join(format!("log4rs.{}", fmt));
+    std::fs::write(&path, &text).unwrap();
+    rep.case(&format!("edge-encoder|{}|{}", fmt, shape), true);
+    rep.count("edge_encoder_sections", 1);
+    let cfg = match trap::catch(|| log4rs::config::load_config_file(&path, Deserializers::default())) {
+        Err(p) => {
+            rep.violation(&format!("C14:panic:load_config_file:{}", p.site()), json!({"document": text, "panic": p.message}));
+            return;
+        }
+        Ok(Err(e)) => {
+            rep.violation("C14:valid-document-rejected", json!({"document": text, "error": format!("{:#}", e)}));
+            return;
+        }
+        Ok(Ok(c)) => c,
+    };
+    if cfg.appenders().len() != 1 {
+        rep.violation("C14:valid-appender-dropped", json!({"document": text}));
+        return;
+    }
+    let programmatic = log4rs::config::Config::builder()
+        .appender(log4rs::config::Appender::builder().build("f", Box::new(
+            log4rs::append::file::FileAppender::builder().encoder(reference).build(format!("{}/from_builder.log", dir)).unwrap())))
+        .build(log4rs::config::Root::builder().appender("f").build(LevelFilter::Trace))
+        .unwrap();
+    for c in [cfg, programmatic] {
+        let logger = log4rs::Logger::new(c);
+        for (k, lvl) in LEVELS.iter().enumerate() {
+            log::Log::log(&logger, &log::Record::builder().target("t").level(*lvl).args(format_args!("message {}", k)).build());
+        }
+    }
+    let a = std::fs::read(sc.path.join("from_document.log")).unwrap_or_default();
+    let b = std::fs::read(sc.path.join("from_builder.log")).unwrap_or_default();
+    // (the default pattern prints a timestamp: compare its shape only)
+    let same = if shape == 3 { a.iter().filter(|x| **x == b'\n').count() == b.iter().filter(|x| **x == b'\n').count() && a.len().abs_diff(b.len()) < 40 } else { a == b };
+    if !same {
+        rep.violation("C14:behaviour-differs-from-document:encoder-section", json!({"document": text,
+            "written_through_the_document": String::from_utf8_lossy(&a), "written_through_the_builder": String::from_utf8_lossy(&b)}));
+    }
+}
+
 pub fn run(rep: &mut Report) {
     crate::c09::set_test_zone();
     rep.rule = "logical configurations (1-4 appenders of kind console / file / rolling_file with pattern / json / defaulted / omitted encoders, \
@@ -1146,6 +1209,7 @@ pub fn run(rep: &mut Report) {
     let thorough = rep.tier == "thorough";
     run_cases(rep, "equivalence", if thorough { 4000 } else { 400 }, check_equivalence);
     run_cases(rep, "injection", if thorough { 40_000 } else { 8_000 }, check_injection);
+    run_cases(rep, "edge-encoder", 15, edge_encoder_cases);
     rep.require(rep.counter("format_sets_compared") > 50, "fewer than 50 complete format sets compared");
     rep.require(rep.counter("rolling_layouts_compared") > 20, "fewer than 20 rolling layouts compared");
     rep.require(rep.set_size("injection_kinds") >= 20, "fewer than 20 injection kinds exercised");
